@@ -215,6 +215,31 @@ func siblingChecksFrom(p *load.Prog, r *report.Report, prop string, entries []*s
 		}
 	}
 	r.Analysed["montgomery_round_pairs_checked"] = nr
+	// E9: the specification congruence of each Montgomery primitive, decided on the function alone
+	ncg := 0
+	for _, x := range []struct {
+		pkg *ssa.Package
+		m   *sibling.Modulus
+	}{{p.Field, mp}, {p.Scalar, mn}} {
+		for _, name := range []string{"Mul", "Square", "ToMontgomery", "FromMontgomery", "Add", "Sub", "Opp"} {
+			fn := x.pkg.Func(name)
+			if fn == nil || !reach[fn] {
+				continue
+			}
+			cg := sibling.Congruence(fn, x.m)
+			if !cg.Applies {
+				continue
+			}
+			ncg++
+			construct := fn.Pkg.Pkg.Name() + "." + name + " congruence"
+			if cg.OK {
+				r.OK(prop+".congruence", construct, fmt.Sprintf("%s, as a polynomial identity over the input limbs: %d words evaluated, %d discarded low words proven ≡ 0 (mod 2^64), %d atoms for discarded high words, carries and borrows all cancel", cg.Msg, cg.Words, cg.Dropped, cg.Atoms))
+			} else {
+				r.Fail(prop+".congruence", construct, p.Pos(cg.Pos), "generated primitive tampered: "+cg.Msg)
+			}
+		}
+	}
+	r.Analysed["montgomery_congruences_checked"] = ncg
 	n := 0
 	for _, pair := range sibling.Pairs(p.Field, p.Scalar) {
 		fa, fb := pair[0], pair[1]
